@@ -54,6 +54,9 @@ def channels(tier):
     # the Unix second gains a digit inside one subdirectory (rf@999999999 -> rf@1000000000, 2001-09-09): name order is not time order
     for mode in ("gapped", "cont"):
         out.append((dict(c01._cfg(1, 1, 1000, 3600, 999999998, mode)), layouts["contiguous_multi_file"], "1/1 %s seconds_gain_a_digit" % mode))
+    # a 14 MHz-class rate with 1 ms files: index x denominator x 1000 exceeds 2^64 (ranges are also given as numpy integers)
+    k0 = rf.first_sample_of_ms(1394333998000, 10**8, 7)
+    out.append((dict(c01._cfg(10**8, 7, 1, 3600, k0, "gapped")), [("w", 0, 5), ("w", 5, 9), ("w", 14280, 12)], "1e8/7 gapped 1ms_files"))
     # 26-27 samples per file: files that start with missing samples and hold three or four blocks (queries
     # ending in the empty head of such a file, or early in its first block)
     n, d, fc, sc = 200, 3, 400, 2
